@@ -32,6 +32,9 @@ class Contract:
     product: dict = field(default_factory=dict)          # relational (2-run) obligation: {"on": "self._verbose", "observe": [...]}
     rulefn_preserves: list = field(default_factory=list)  # ASSUMED of every uninterpreted rule-like call made by this function
     generator: bool = False                             # generator function: ensures may mention `yielded` (tokens yielded by this call)
+    yields: str = "Tok"                                 # what `yielded` holds: "Tok" (tokens) or "node" (NodeAbs records: span, identity, ghost index)
+    returns_same: dict = field(default_factory=dict)     # spec expr over the PRE state -> parameter: when it holds the call returns THAT argument object
+                                                         # (verified as `implies(cond, result is param)`; call sites hand the object on)
     requires_assumed: dict = field(default_factory=dict)  # ghost precondition -> why it is ASSUMED (not checked) at call sites; listed in evidence
     opaque: list = field(default_factory=list)           # locals whose values are NOT modelled: statements that only compute / update them are skipped
                                                          # (sound as long as they flow only into values the contract leaves unconstrained)
